@@ -29,6 +29,7 @@ var (
 	errAlpha   = []error{nil, errors.New("x"), errors.New("bad {{.Failed}} 100% sure\nsecond line {red}")}
 	ansi       = regexp.MustCompile("\x1b\\[[0-9;]*m")
 	reStarted  = regexp.MustCompile(`(?m)^(\d+) iterations started in `)
+	reElapsed  = regexp.MustCompile(`(?m)^\d+ iterations started in (\S+)`)
 	reSucc     = regexp.MustCompile(`(?m)^Successful Iterations: (\d+) \(([0-9.]+|NaN|\+Inf)%`)
 	reFail     = regexp.MustCompile(`(?m)^Failed Iterations: (\d+) \(([0-9.]+|NaN|\+Inf)%`)
 	reDrop     = regexp.MustCompile(`(?m)^Dropped Iterations: (\d+) \(([0-9.]+|NaN|\+Inf)%`)
@@ -250,6 +251,12 @@ func resultSuite() hlib.Suite {
 							}
 							if m := reStarted.FindStringSubmatch(text); m == nil || m[1] != strconv.FormatUint(s+f, 10) {
 								r.Fail("C19/summary-started", "count", fmt.Sprintf("started line %v, want %d", m, s+f), input)
+							}
+							// this result never recorded a start: the elapsed time it states cannot be more than the moment this case has existed
+							if m := reElapsed.FindStringSubmatch(text); m != nil {
+								if d, err := time.ParseDuration(m[1]); err != nil || d < 0 || d > time.Hour {
+									r.Fail("C19/summary-elapsed", "absurd", fmt.Sprintf("the summary of a result that never started says %q", m[0]), input)
+								}
 							}
 							checkLine(r, text, reSucc, "successful", s, s+f+d, input)
 							checkLine(r, text, reFail, "failed", f, s+f+d, input)
